@@ -157,6 +157,23 @@ def build_operand(a):
     if a.get("inflate"):
         x = inflate_tt(torchtt, x)
     x = scale_tt(torchtt, x, a.get("scale"))
+    if a.get("unbalanced"):
+        # round 5: two rank-one terms of equal norm, the second stored with badly balanced cores (s, 1/s, 1, ...): every core of
+        # the unrounded sum mixes entries of very different magnitude although the tensor itself is perfectly scaled
+        sfac = float(a["unbalanced"])
+        def unit(n):
+            w = torch.randn(n, dtype=torch.float64)
+            return (w / torch.linalg.norm(w)).to(dt)
+        if is_op_shape(shape):
+            us = [unit(m * n).reshape(m, n) for (m, n) in shape]
+            vs = [unit(m * n).reshape(m, n) for (m, n) in shape]
+        else:
+            us = [unit(n) for n in shape]
+            vs = [unit(n) for n in shape]
+        if len(vs) >= 2:
+            vs[0] = vs[0] * sfac
+            vs[1] = vs[1] / sfac
+        x = torchtt.rank1TT(us) + torchtt.rank1TT(vs)
     return x
 
 
@@ -185,6 +202,8 @@ def _mk(op, shape, rank, dtype, eps, seed, noise=0.0, **extra):
                       ("to=%s" % str(tag).replace(" ", "")) if tag != "" else "std",
                       "r=%d" % rank, dtype, "eps=%s" % ("default" if eps is None else "%g" % eps),
                       "noise=%g" % noise, "seed=%d" % seed)
+    if extra.get("unbalanced"):
+        a["id"] += ".unbalanced=%g" % extra["unbalanced"]
     if extra.get("scale") or extra.get("inflate"):
         a["id"] += "." + scale_tag(extra.get("scale")) + (".inflated" if extra.get("inflate") else "")
     return a
@@ -261,6 +280,16 @@ def scaled_cases(tier, seed):
             variants("to_qtt", shape, "float64", s)
         if not quick:
             variants("to_qtt", shape, "complex128", seeds[0])
+    # round 5: unrounded sums with badly balanced cores (the truncation threshold must be relative to the norm of the TENSOR)
+    for sfac in (1e3, 1e6):
+        for eps in (1e-2, 1e-6):
+            for s in seeds[:1]:
+                for shape in ([[8, 8], [4, 8, 4]] if quick else [[8, 8], [4, 8, 4], [16, 4], [(4, 4), (4, 4)]]):
+                    cases.append(_mk("to_qtt", shape, 1, "float64", eps, s, unbalanced=sfac))
+                for shape, dims in (([3, 4, 5], [0, 2, 1]), ([2, 3, 2, 3], [0, 2, 1, 3]), ([3, 4, 5], [2, 0, 1])):
+                    cases.append(_mk("permute", shape, 1, "float64", eps, s, dims=dims, unbalanced=sfac))
+                for shape, target in (([4, 6], [2, 2, 6]), ([6, 4, 2], [3, 8, 2])):
+                    cases.append(_mk("reshape", shape, 1, "float64", eps, s, target=target, unbalanced=sfac))
     return cases
 
 
